@@ -35,11 +35,14 @@ def models(tier):
                       props=["INVARIANT WellFormedInv", "PROPERTY Refinement"],
                       need=list(need)))
     # identity hash, 1 initial bucket: rehash at the 3rd insert, buckets 1 -> 3, stale references across buckets
-    mapcfg("map-1", (1, 1), 1, 2, 1000, 3, 1, 6 if q else 7, False)
+    mapcfg("map-1", (1, 1), 1, 2, 1000, 3, 1, 5 if q else 7, False)
     # two maps (swap / operator= between maps with different internals), hash = key mod 2 whatever the bucket count
-    mapcfg("map-2", (1, 1), 2, 2, 2, 4, 1, 4 if q else 5, True)
+    if q:
+        mapcfg("map-2", (1, 1), 1, 2, 2, 3, 1, 4, True)
+    else:
+        mapcfg("map-2", (1, 1), 2, 2, 2, 4, 1, 5, True)
     # the library's load factor 0.75, compaction at every erase, two values
-    mapcfg("map-3", (3, 4), 1, 1, 2, 4, 2, 5 if q else 6, False, need=("rehash", "reuse", "compact"))
+    mapcfg("map-3", (3, 4), 1, 1, 2, 4, 1 if q else 2, 5 if q else 6, False, need=("rehash", "reuse", "compact"))
     if not q:
         mapcfg("map-4", (3, 4), 2, 3, 3, 5, 1, 7, False)
     M.append(dict(name="vector", mod="Vector", c="vector", spec="GenSpec",
@@ -110,18 +113,26 @@ def tags_of(st):
     return sorted(tlaparse.parse_value(raw))
 
 
-def export_histories(dump):
-    """the leaf (fin = TRUE) states of the dump: (history, branch tags of its last operation)"""
-    out = []
+def export_histories(dump, need, cap_tagged, cap_plain, seed):
+    """the leaf (fin = TRUE) states of the dump = one shortest history per transition.  All of them were checked by
+    TLC; the real code replays those whose last operation takes one of the `need` branches (up to cap_tagged) and a
+    seeded sample of the others (up to cap_plain), chosen by hash so that TLC's worker interleaving has no say."""
+    import hashlib
+    tagged, plain, leaves = [], [], 0
     for st in read_states(dump):
         if st.get("fin") != "TRUE":
             continue
-        out.append((tlaparse.parse_value(st["hist"]), tags_of(st)))
-    out.sort(key=lambda x: vlib.canon_hash(x[0]))    # TLC's worker interleaving must not decide the order
-    return out
+        leaves += 1
+        tags = tags_of(st)
+        h = hashlib.sha1(("%d|" % seed + st["hist"]).encode()).hexdigest()
+        (tagged if any(t in need for t in tags) else plain).append((h, st["hist"], tags))
+    tagged.sort(); plain.sort()
+    sel = tagged[:cap_tagged] + plain[:cap_plain]
+    out = [(tlaparse.parse_value(raw), tags) for _, raw, tags in sel]
+    return out, {"transitions": leaves, "tagged": len(tagged), "replayed": len(out)}
 
 
-def run_model(m, wd, workers):
+def run_model(m, wd, workers, caps, seed):
     cfg = os.path.join(wd, m["name"] + ".cfg")
     open(cfg, "w").write(cfg_text(m))
     dump = os.path.join(wd, m["name"])
@@ -130,10 +141,10 @@ def run_model(m, wd, workers):
     if not r["ok"]:
         raise vlib.Infra("model checking %s failed (rc=%s):\n%s" % (m["name"], r["rc"], r["out"][-4000:]))
     t = time.time()
-    hs = export_histories(dump + ".dump")
+    hs, counts = export_histories(dump + ".dump", set(m["need"]), caps[0], caps[1], seed)
     os.remove(dump + ".dump")
-    vlib.log("c20: %s: TLC %.1fs (%d distinct), %d histories read in %.1fs" % (m["name"], r["wall"], r["distinct"], len(hs), time.time() - t))
-    return r, hs
+    vlib.log("c20: %s: TLC %.1fs (%d distinct), %s, read in %.1fs" % (m["name"], r["wall"], r["distinct"], counts, time.time() - t))
+    return r, hs, counts
 
 
 def simulate(m, wd, num, depth, seed, workers):
@@ -301,7 +312,7 @@ def run_harness(exe, cases, wd, shards):
 
     def one(job):
         cp, tp, _ = job
-        env = dict(os.environ, ASAN_OPTIONS="detect_leaks=0:abort_on_error=0", UBSAN_OPTIONS="print_stacktrace=1")
+        env = dict(os.environ, ASAN_OPTIONS="detect_leaks=0:abort_on_error=0:symbolize=0", UBSAN_OPTIONS="print_stacktrace=1")
         with open(tp, "w") as f:
             try:
                 r = subprocess.run([exe, cp], stdout=f, stderr=subprocess.PIPE, text=True, timeout=3000, env=env, errors="replace")
@@ -340,16 +351,17 @@ def run(res, tier, seed):
     exe_future = ThreadPoolExecutor(max_workers=1).submit(vlib.build_harness, "c20", "asan")
     cases, tagcount = [], {}
     par = 3 if quick else 2
+    caps = (2000, 1200) if quick else (40000, 20000)
     with ThreadPoolExecutor(max_workers=par) as ex:
-        outs = list(ex.map(lambda m: run_model(m, wd, max(2, vlib.NCPU // (par + 1))), ms))
-    for m, (r, hs) in zip(ms, outs):
+        outs = list(ex.map(lambda m: run_model(m, wd, max(2, vlib.NCPU // (par + 1)), caps, seed), ms))
+    for m, (r, hs, counts) in zip(ms, outs):
         res.add_mc(r, "MC_%s/%s %s" % (m["mod"], m["name"], " ".join("%s=%s" % kv for kv in m["consts"].items())))
         seen = {}
         for h, tags in hs:
             cases.append({"c": m["c"], "p": m["p"], "ops": h, "tags": tags, "model": m["name"]})
             for t in tags:
                 seen[t] = seen.get(t, 0) + 1
-        tagcount[m["name"]] = dict(seen, histories=len(hs))
+        tagcount[m["name"]] = dict(seen, **counts)
         missing = [t for t in m["need"] if not seen.get(t)]
         if missing:
             raise vlib.Infra("bounded model %s never takes branch(es) %s: bounds too small" % (m["name"], missing))
@@ -381,7 +393,7 @@ def run(res, tier, seed):
     res.cov["evaluations"] = len(execs)
     # ---- TV
     t2 = time.time()
-    rejects, st = vlib.tlc_validate_sharded(TRACE, events, tag="c20tv", timeout=2400)
+    rejects, st = vlib.tlc_validate_sharded(TRACE, events, shards=6 if quick else 10, tag="c20tv", timeout=3000)
     res.notes["tv_states"] = st["tv_states"]
     res.notes["tv_wall_s"] = round(time.time() - t2, 1)
     known = {k["key"]: k for k in vlib.known_findings(PROP)}
@@ -414,12 +426,13 @@ def run(res, tier, seed):
         if case["tags"]:
             nt.add(vlib.canon_hash([case["c"], case["p"], case["ops"]]))
     res.cov["distinct_nontrivial"] = len(nt)
-    res.cov["rule"] = ("one execution per transition (pre-state, operation) of the TLC state graphs of MapImpl / VectorImpl / StringImpl / "
-                       "ListImpl / DequeImpl (shortest history reaching it), plus seeded random histories of XalanSet / default-parameter "
+    res.cov["rule"] = ("executions = shortest histories reaching a transition (pre-state, operation) of the TLC state graphs of MapImpl / "
+                       "VectorImpl / StringImpl / ListImpl / DequeImpl: per model every transition whose operation takes a listed branch (up to %d) "
+                       "and a seeded sample of the others (up to %d) - TLC itself checks all of them -, plus seeded random histories of XalanSet / default-parameter "
                        "XalanMap%s; non-trivial = the last operation takes a tagged branch of the transcribed algorithm (rehash, reuse of a "
                        "freed node, bucket compaction, stale bucket reference, reallocation, in-place insertion / self insertion, element "
                        "shifting, block recycling, splice, a known deviation) or the history is a long random one; distinct by hash of "
-                       "(container, parameters, operations)" % ("" if quick else " and tlc -simulate histories of 40 operations"))
+                       "(container, parameters, operations)" % (caps[0], caps[1], "" if quick else " and tlc -simulate histories of 40 operations"))
     by = {}
     for case in cases:
         by[case["c"]] = by.get(case["c"], 0) + 1
